@@ -5,6 +5,8 @@ mod c02;
 mod c03;
 mod mgmt;
 mod c04;
+mod ast;
+mod c01;
 
 use proto::Recorder;
 use std::path::PathBuf;
@@ -46,6 +48,7 @@ fn main() {
                 rec.exec(&mut w, line);
             }
         }
+        "C01" => c01::run(&mut rec, &mut w, &tier, seed),
         "C02" => c02::run(&mut rec, &mut w, &tier, seed),
         "C03" => c03::run(&mut rec, &mut w, &tier, seed),
         "C04" => c04::run(&mut rec, &mut w, &tier, seed),
